@@ -388,6 +388,7 @@ class C05(Engine):
     def run(self):
         self.sim_ticks = 0
         self.run_bulk(self.scenarios(), chunk=16)
+        self.confirm_hangs()
         self.recheck_killed()
         self.fidelity()
         self.stats["base_programs"] = getattr(self, "n_bases", None)
